@@ -236,44 +236,77 @@ def invalid_declarations():
             es.SolveEquation()
         expect('token:' + tok, mk, lambda: box['es'])
 
-    def dup_country():
-        m = Model(); Country(m, 'CA'); Country(m, 'CA')
-    expect('duplicate-country', dup_country)
+    # model-level declarations: every scenario is a sequence of public-API calls with a tick between consecutive calls, so that it can be
+    # replayed with another model being started / built / solved at any point of its construction (the library documents coexisting models)
+    def other_bare():
+        Model()
 
-    def dup_sector():
-        m = Model(); c = Country(m, 'CA'); Sector(c, 'HH'); Sector(c, 'HH')
-    expect('duplicate-sector', dup_sector)
+    def other_half_built():
+        m2 = Model(); c2 = Country(m2, 'ZZ', currency='ZED'); Sector(c2, 'S1'); Sector(c2, 'S2')
 
-    def dup_sector_kinds():
-        m = Model(); c = Country(m, 'CA'); sd.Household(c, 'X'); Market(c, 'X')
-    expect('duplicate-sector-different-kinds', dup_sector_kinds)
+    def other_solved():
+        m2 = Model(); c2 = Country(m2, 'ZZ'); s2 = Sector(c2, 'S'); s2.AddVariable('Q', 'q', '0.5*Q + 1'); m2.MaxTime = 1; m2.main()
+    INTERRUPT = {'other-model-started': other_bare, 'other-model-half-built': other_half_built, 'other-model-built-and-solved': other_solved}
 
-    def underscores_local():
-        m = Model(); c = Country(m, 'CA'); s = Sector(c, 'HH'); s.AddVariable('A__B', 'x', '1.0')
-    expect('double-underscore-local-name', underscores_local)
-    box2 = {}
+    def dup_country(tick, box):
+        m = Model(); tick(); Country(m, 'CA'); tick(); Country(m, 'CA')
 
-    def underscores_code():
-        m = Model(); box2['m'] = m; c = Country(m, 'CA'); s = Sector(c, 'H__H'); s.AddVariable('A', 'x', '1.0'); m.MaxTime = 1; m.main()
-    expect('double-underscore-sector-code', underscores_code, lambda: box2['m'].EquationSolver)
-    box3 = {}
+    def dup_sector(tick, box):
+        m = Model(); tick(); c = Country(m, 'CA'); tick(); Sector(c, 'HH'); tick(); Sector(c, 'HH')
 
-    def no_supplier():
-        m = Model(); box3['m'] = m; c = Country(m, 'CA'); sd.ConsolidatedGovernment(c, 'GOV'); Market(c, 'GOOD'); m.MaxTime = 1; m.main()
-    expect('market-without-supplier', no_supplier, lambda: box3['m'].EquationSolver)
-    box4 = {}
+    def dup_sector_kinds(tick, box):
+        m = Model(); tick(); c = Country(m, 'CA'); tick(); sd.Household(c, 'X'); tick(); Market(c, 'X')
 
-    def ambiguous():
-        m = Model(); box4['m'] = m; c = Country(m, 'CA'); sd.ConsolidatedGovernment(c, 'GOV'); sd.Household(c, 'HH')
-        sd.FixedMarginBusiness(c, 'B1'); sd.FixedMarginBusiness(c, 'B2'); sd.TaxFlow(c, 'TF', taxrate=.2); Market(c, 'LAB'); Market(c, 'GOOD')
-        m.MaxTime = 1; m.main()
-    expect('market-with-ambiguous-suppliers', ambiguous, lambda: box4['m'].EquationSolver)
-    box5 = {}
+    def underscores_local(tick, box):
+        m = Model(); tick(); c = Country(m, 'CA'); tick(); s = Sector(c, 'HH'); tick(); s.AddVariable('A__B', 'x', '1.0')
 
-    def cross_no_ext():
-        m = Model(); box5['m'] = m; a = Country(m, 'AA', currency='A'); b = Country(m, 'BB', currency='B')
-        s1 = Sector(a, 'S'); s2 = Sector(b, 'S'); s1.AddVariable('GIFT', 'g', '1.0'); m.RegisterCashFlow(s1, s2, 'GIFT'); m.MaxTime = 1; m.main()
-    expect('cross-currency-flow-without-external-sector', cross_no_ext, lambda: box5['m'].EquationSolver)
+    def underscores_code(tick, box):
+        m = Model(); box['m'] = m; tick(); c = Country(m, 'CA'); tick(); s = Sector(c, 'H__H'); tick(); s.AddVariable('A', 'x', '1.0'); m.MaxTime = 1; tick(); m.main()
+
+    def no_supplier(tick, box):
+        m = Model(); box['m'] = m; tick(); c = Country(m, 'CA'); tick(); sd.ConsolidatedGovernment(c, 'GOV'); tick(); Market(c, 'GOOD'); m.MaxTime = 1; tick(); m.main()
+
+    def ambiguous(tick, box):
+        m = Model(); box['m'] = m; tick(); c = Country(m, 'CA'); tick(); sd.ConsolidatedGovernment(c, 'GOV'); tick(); sd.Household(c, 'HH'); tick()
+        sd.FixedMarginBusiness(c, 'B1'); tick(); sd.FixedMarginBusiness(c, 'B2'); tick(); sd.TaxFlow(c, 'TF', taxrate=.2); tick(); Market(c, 'LAB'); tick(); Market(c, 'GOOD')
+        m.MaxTime = 1; tick(); m.main()
+
+    def ambiguous_labour(tick, box):
+        m = Model(); box['m'] = m; tick(); c = Country(m, 'CA'); tick(); sd.Household(c, 'HW'); tick(); sd.Household(c, 'HR'); tick()
+        sd.ConsolidatedGovernment(c, 'GOV'); tick(); sd.FixedMarginBusiness(c, 'BUS'); tick(); sd.TaxFlow(c, 'TF', taxrate=.2); tick(); Market(c, 'GOOD'); tick(); Market(c, 'LAB')
+        m.MaxTime = 1; tick(); m.main()
+
+    def cross_no_ext(tick, box):
+        m = Model(); box['m'] = m; tick(); a = Country(m, 'AA', currency='A'); tick(); b = Country(m, 'BB', currency='B'); tick()
+        s1 = Sector(a, 'S'); tick(); s2 = Sector(b, 'S'); tick(); s1.AddVariable('GIFT', 'g', '1.0'); tick(); m.RegisterCashFlow(s1, s2, 'GIFT'); m.MaxTime = 1; tick(); m.main()
+
+    def cross_supplier_no_ext(tick, box):
+        m = Model(); box['m'] = m; tick(); a = Country(m, 'AA', currency='A'); tick(); b = Country(m, 'BB', currency='B'); tick()
+        sd.ConsolidatedGovernment(a, 'GOV'); tick(); sd.Household(a, 'HH'); tick(); sd.TaxFlow(a, 'TF', taxrate=.2); tick(); bus = sd.FixedMarginBusiness(b, 'BUS'); tick()
+        Market(b, 'LAB'); tick(); sd.Household(b, 'HH'); tick(); g = Market(a, 'GOOD'); tick(); Market(a, 'LAB'); tick(); g.AddSupplier(bus); m.MaxTime = 1; tick(); m.main()
+
+    scen = [('duplicate-country', dup_country, False), ('duplicate-sector', dup_sector, False), ('duplicate-sector-different-kinds', dup_sector_kinds, False),
+            ('double-underscore-local-name', underscores_local, False), ('double-underscore-sector-code', underscores_code, True),
+            ('market-without-supplier', no_supplier, True), ('market-with-ambiguous-suppliers', ambiguous, True),
+            ('market-with-ambiguous-labour-suppliers', ambiguous_labour, True),
+            ('cross-currency-flow-without-external-sector', cross_no_ext, True), ('cross-currency-supplier-without-external-sector', cross_supplier_no_ext, True)]
+    for label, fn, solves in scen:
+        count = [0]
+
+        def tick0():
+            count[0] += 1
+        box = {}
+        expect(label, lambda: fn(tick0, box), (lambda: box['m'].EquationSolver) if solves else None)
+        for pos in range(1, count[0] + 1):
+            for iname, ifn in sorted(INTERRUPT.items()):
+                box = {}
+                seen = [0]
+
+                def tick(pos=pos, ifn=ifn, seen=seen):
+                    seen[0] += 1
+                    if seen[0] == pos:
+                        ifn()
+                expect('%s@%s-after-call-%d' % (label, iname, pos), lambda: fn(tick, box), (lambda: box['m'].EquationSolver) if solves else None)
     return results
 
 
@@ -360,7 +393,8 @@ def run(tier, seed):
                   'contraction => success': '%d cases x = A*x + B, A in {0.8,-0.8,0.5,...}, B and x(0) symbolic in the stated box (quick: A in {-0.8, 0.5, -0.5, 0.25} with boxes +-1000/+-100; A = 0.8 needs ~130 damped sweeps and is explored in the thorough tier only), DEFAULT cap 400, tolerance >= %g, one variable'
                   % (len(ccs), min(c[1] for c in ccs)),
                   'invalid declarations': 'every keyword / builtin / math name / k / self / None as variable name and as token; duplicate country / sector; "__" in local '
-                  'name and sector code; market without / with ambiguous suppliers; cross-currency flow without external sector'}
+                  'name and sector code; market without / with ambiguous suppliers (goods and labour); cross-currency flow and cross-currency supplier without external sector; each model-level '
+                  'scenario also with another model started / half built / built-and-solved after every one of its construction calls'}
     chk.assumptions = ['sweep count is read from the public step trace (TraceStep)', 'TimeSeriesHolder.GenerateCSVtext stubbed to "" in E2 runs']
     chk.outside = ['contraction => success for more than one simultaneous variable (the property states up to 12): path count grows as sweeps^n - not reached, not claimed',
                    'domain errors of math functions (need float arguments)']
